@@ -27,6 +27,9 @@ class Network(object):
         self.ctx_hosts = {}         # main-loop context -> (host, owner): overrides current_host/current_owner (stack world)
         self.next_port = 50000
         self.dropped = 0
+        self.send_calls = 0
+        self.fail_at = None         # the sendmsg call with this number (from 0) fails once (injected fault)
+        self.failed = []            # datagrams whose sendmsg was made to fail: dict(owner=, data=)
 
     def deliver(self, dgram):
         ''' Hand one datagram (a dict from inflight / sent_log, or a fresh one) to its destination. '''
@@ -80,6 +83,11 @@ class SimUdpSocket(object):
         data = b''.join(bytes(b) for b in buffers)
         if len(data) > UDP_MAX:
             raise OSError(90, 'Message too long')
+        number = NET.send_calls
+        NET.send_calls += 1
+        if NET.fail_at is not None and number == NET.fail_at:
+            NET.failed.append(dict(owner=self.owner, data=data))
+            raise OSError(101, 'Network is unreachable')
         self._ensure_port()
         dgram = dict(src=(self.host, self.port), dst=(address[0], address[1]), data=data, t_ms=simloop.CLOCK.now_ms,
                      owner=self.owner)
